@@ -208,7 +208,9 @@ def run(c, facts, tier):
         c.ob("C02.match", T, "%s → (%s matcher(pattern, ci=%s))" % (v, acc, ci), row is not None and row["tokens"] == exp, "emits `%s`" % (" ".join(row["tokens"]) if row else None), nontrivial=False)
     # C02.fmt-*: placeholder / snippet / literal tables and arity agreement
     for key in ("scheme::target_scheme::placeholder", "scheme::target_scheme::snippet", "scheme::target_scheme::literal", "<Vec<FormatElement> as TargetScheme>::compile", "scheme::manager::terminator_escape"):
-        codegen.diff_tables(c, "C02.fmt", key, codegen.plain(codegen.table(facts, key)), spec["tables"][key], "format table", fields=("tokens", "outcome"))
+        # per-element failures inside a traversal (`∃ element …  → Err`) are rows only in the loop spelling; whether such an
+        # error is propagated is C12.propagate's question, the table compares what is emitted when every element is accepted
+        codegen.diff_tables(c, "C02.fmt", key, codegen.plain(codegen.table(facts, key)), spec["tables"][key], "format table", fields=("tokens", "outcome"), only=(lambda k_: "∃" not in k_) if "Vec<FormatElement>" in key else None)
     pe = codegen.expand(codegen.table(facts, "scheme::target_scheme::placeholder"))
     se = codegen.expand(codegen.table(facts, "scheme::target_scheme::snippet"))
     nf = 0
@@ -226,15 +228,20 @@ def run(c, facts, tier):
             args_ = {r2["outcome"].startswith("ok:Some(") for r2 in cand if not r2["outcome"].startswith("err")}
             c.ob("C02.fmt-arity", "placeholder/snippet", k, args_ == {directive}, "placeholder %s (%s a ~ directive) ⇔ snippet yields %s" % (r["outcome"], "is" if directive else "is not", sorted(o["outcome"][:30] for o in cand)), nontrivial=False)
     c.floor("format fields checked for directive/argument alignment", nf, 30)
-    # both lists are iter() over the same vector, in order
+    # both lists are produced from the same vector, element by element, in order: decided on the interpreted value of the
+    # successful path — the template and the argument list are joins over an element-wise traversal of `self` itself
+    # (iterator chain, filter_map, one or two `for` loops: the interpreter brings them to the same `mapped` form; a reversed,
+    # skipped or sorted traversal does not have that form and the template row above differs)
     vf = facts.fn("<Vec<FormatElement> as TargetScheme>::compile")
-    chains = []
-    for st_ in vf.body["stmts"]:
-        if st_["k"] == "let" and st_["init"] is not None:
-            base, ch = rx.method_chain(st_["init"])
-            chains.append((rx.is_var(base, "self"), [m for m, _, _ in ch]))
-    okc = len(chains) == 2 and all(b and ms[0] == "iter" and not set(ms) & {"rev", "skip", "take", "step_by", "sorted", "dedup"} for b, ms in chains)
-    c.ob("C02.fmt-arity", vf.key, "directives and arguments are produced in element order", okc, "adaptor chains %s" % chains)
+    okrows = [r_ for r_ in codegen.table(facts, vf.key) if r_["outcome"].startswith("ok") and "∃" not in (r_["cond"] or "")]
+    joins = []
+    for r_ in okrows:
+        for part in r_["st"].buf:
+            if part and part[0] == "join":
+                mv = part[1]
+                joins.append((isinstance(mv, dict) and mv.get("v") == "mapped" and isinstance(mv.get("of"), dict) and mv["of"].get("v") == "self", part[2]))
+    okc = len(okrows) == 1 and [j[1] for j in joins] == ["", " "] and all(j[0] for j in joins)
+    c.ob("C02.fmt-arity", vf.key, "directives and arguments are produced in element order", okc, "joined parts of the emitted form: %s (element-wise over self: %s)" % ([j[1] for j in joins], [j[0] for j in joins]))
     # fail closed: the interpreter must have modelled every construct of the code generator it walked
     for key in codegen.COMPILE_IMPLS + codegen.HELPERS:
         unk = sorted({u for r in codegen.table(facts, key) for u in r["unknown"]})
